@@ -10,7 +10,8 @@ import parser_common as pc
 ID = 'C03'
 LEAN_MODULE = 'Proofs.C03'
 THEOREMS = ['Fsic.C03.' + n for n in [
-    'type_order', 'promote_spec', 'lhs_variable_endogenous', 'classify_spec', 'classify_spec_false_at_witness',
+    'type_order', 'promote_spec', 'lhs_variable_endogenous', 'classify_spec', 'accepted_no_function_clash',
+    'function_clash_rejected', 'stepTerm_function_after_variable', 'stepTerm_variable_after_function',
     'classify_rejects', 'rejection_class', 'accepted_iff', 'rejects_symbolError', 'rejects_parserError',
     'identical_duplicates_accepted', 'combine_error_class', 'symbol_order', 'names_partition', 'lags_leads_spec',
     'explicit_replace', 'min_only_raise', 'default_range_feasible', 'default_range_enumerated',
@@ -25,14 +26,12 @@ RULE = ('grammar programs (gen_scripts.gen_program, multi-equation, named period
         'equations or a repeated name')
 TRUSTED = ['terms are taken from the real parse_equation_terms (the regular-expression level is C13/C14)',
            'harness/parser_common.py encodes fsic Symbols/Terms as JSON for the driver']
-ASSUMPTIONS = ['no name is used both as a function call and as a variable/parameter/error (NoFunctionClash; the C01 '
-               'grammar excludes it — the witness theorem classify_spec_false_at_witness shows what the code does otherwise)',
-               'term indexes are as parse_terms produces them (int or str for indexed kinds, None for functions/keywords)']
+ASSUMPTIONS = ['term indexes are as parse_terms produces them (int or str for indexed kinds, None for functions/keywords)']
 
 META = {
-    "text": "Theorems over ALL term-level scripts (a statement = the (name, Type, index) terms returned by parse_equation_terms plus the opaque equation/code strings; no lexing), all option sets and span lengths: an accepted script's named symbols are the term names, each once, in first-appearance order (Python-dict insertion semantics as an association list), every symbol summarising all occurrences of its name (type = max over the reflected enum, lags/leads = min/max with the implicit 0, one equation); hence endogenous iff some LHS-variable term, parameter iff brace term, error iff angle term, exogenous otherwise; NAMES = endo++exo++params++errors without duplicates, each class a subsequence of the first-appearance list; LAGS = max(0 :: -offsets), LEADS = max(0 :: offsets) (string indexes contribute 0), explicit lags=/leads= replace, min_ only raise; [LAGS, n-1-LEADS] is exactly the set of positions at which every offset stays inside the span, and M1's solve() iterates periodRange over it in increasing order. Acceptance is characterised exactly: accepted iff no kind conflict and no double definition; a kind conflict alone gives SymbolError, a double definition alone ParserError, no other exception class is reachable; repeating an identical equation statement leaves the symbol list unchanged. VARIABLE < EXOGENOUS < ENDOGENOUS is re-proved from the reflected Type table on every run. The model is tied to Symbol.combine / parse_equation_terms / parse_equation / parse_model / build_model_definition by exact comparison on the real intermediate values, and the property is restated over the generator's AST against the real classes and iter_periods().",
+    "text": "Theorems over ALL term-level scripts (a statement = the (name, Type, index) terms returned by parse_equation_terms plus the opaque equation/code strings; no lexing), all option sets and span lengths: an accepted script's named symbols are the term names, each once, in first-appearance order (Python-dict insertion semantics as an association list), every symbol summarising all occurrences of its name (type = max over the reflected enum, lags/leads = min/max with the implicit 0, one equation); hence endogenous iff some LHS-variable term, parameter iff brace term, error iff angle term, exogenous otherwise; NAMES = endo++exo++params++errors without duplicates, each class a subsequence of the first-appearance list; LAGS = max(0 :: -offsets), LEADS = max(0 :: offsets) (string indexes contribute 0), explicit lags=/leads= replace, min_ only raise; [LAGS, n-1-LEADS] is exactly the set of positions at which every offset stays inside the span, and M1's solve() iterates periodRange over it in increasing order. Acceptance is characterised exactly: accepted iff no kind conflict, no double definition and every equation statement assigns exactly one variable; a kind conflict alone gives SymbolError, a double definition / a function-variable clash inside a statement / a statement without exactly one assigned variable gives ParserError, no other exception class is reachable; in every accepted script no name is both a called function and a variable (the code rejects the clash since fix 3f601b8, so the former guard is now a theorem); repeating an identical equation statement leaves the symbol list unchanged. VARIABLE < EXOGENOUS < ENDOGENOUS is re-proved from the reflected Type table on every run. The model is tied to Symbol.combine / parse_equation_terms / parse_equation / parse_model / build_model_definition by exact comparison on the real intermediate values, and the property is restated over the generator's AST against the real classes and iter_periods().",
     "design_ref": "DESIGN.md §5 M3, §6 C03",
-    "note": "Trusted: Lean kernel; axioms propext/Classical.choice/Quot.sound; the correspondence harness, which validates the hand-written model on generated cases only; terms are taken from the real regex scanner (the text level is C13/C14). Theorems carry two guards on what the scanner hands over: indexes shaped as parse_terms makes them (None exactly for functions/keywords), and no name used both as a called function and as a variable (outside the C01 grammar; classify_spec_false_at_witness proves the statement fails there: 'Y = log + log(X)' is accepted and the variable log is in no class list).",
+    "note": "Trusted: Lean kernel; axioms propext/Classical.choice/Quot.sound; the correspondence harness, which validates the hand-written model on generated cases only; terms are taken from the real regex scanner (the text level is C13/C14). Theorems carry one guard on what the scanner hands over: indexes shaped as parse_terms makes them (None exactly for functions/keywords).",
     "technique": "Lean 4 proof (per-key decomposition of the two dict folds, a membership-based summary invariant composed over both levels, failing-step analysis for the error classes, omega for the range) + differential correspondence check + AST-level oracle"
 }
 
@@ -160,6 +159,10 @@ def oracle_parse(case, prog, real, rep):
     exp = gs.expected_classes(prog)
     dd = pc.double_defined(prog)
     info = info_of(case)
+    if case.get('may_reject') and 'err' in real:
+        # a variable named like a function called in the same statement: the property's grammar does not contain it;
+        # rejecting is fine, but IF the script is accepted the classification must hold (checked below)
+        return False
     if exp['conflict'] or dd:
         want = set()
         if exp['conflict']:
@@ -320,6 +323,7 @@ HAND_STATEMENTS = [
     "Y = f(X) + f + f(Z)", "Y = f + f(X) + f", "Y = 1", "Y = X + X + X[-1] + X[1] + {p}[-2] + <e>[3]",
 ]
 HAND_SCRIPTS = [
+    "Y = log + log(X)", "1 = X\nY = X", "Y = X\n{a} = X", "Y = X\n<e> = Y", "`a` = X", "Y = log(X)\nZ = log + Y",
     "Y = log(X)\nZ = log", "Y = X\nY = X", "Y = X\nY = Z", "Y = {a}\nZ = a", "Y = X[1]\nX = Y[-2]",
     "Z = Y[2]\nY = Z[-1]\nW = Y + Z", "```\nfoo = 1\n```\nY = X", "```\nfoo = 1\n```", "", "Y = X\n```\nbar()\n```\nZ = Y[-1]\n```\nbaz()\n```",
     "Y = log(X)\nZ = log(Y)", "Y = X if X else Z\nZ = Y if X else W", "Y = <e>\nZ = {e}", "Y = X\nZ = Y\nY = X",
@@ -336,8 +340,9 @@ def direct_correspondence(ctx, rep):
                       pc.line('p_combine', {'a': pc.sym_json(a), 'b': pc.sym_json(b)}),
                       {'ok': pc.sym_json(r['ok'])} if 'ok' in r else r))
         rep.dist['combine:' + ('ok' if 'ok' in r else r['err'])] += 1
-    for st in HAND_STATEMENTS:
+    for st in HAND_STATEMENTS + no_variable_statements(ctx.sub_rng('novar')):
         sc = pc.statement_case(st)
+        rep.dist['statement:' + ('ok' if 'ok' in sc['impl'] else sc['impl']['err'])] += 1
         if sc['terms'] is not None:
             batch.append(('parse_equation: symbolsOfTerms(real terms) != real symbols', {'statement': st},
                           pc.line('p_symbols_of_terms', {'terms': sc['terms'], 'equation': sc['equation'], 'code': sc['code']}),
@@ -349,6 +354,17 @@ def direct_correspondence(ctx, rep):
             batch.append(('parse_equation_terms: equationTerms(parse_terms(lhs), parse_terms(rhs)) != impl', {'statement': st},
                           pc.line('p_eq_terms', {'lhs': [pc.term_json(t) for t in lt['ok']], 'rhs': [pc.term_json(t) for t in rt['ok']]}),
                           {'ok': [pc.term_json(t) for t in r['ok']]} if 'ok' in r else r))
+        # the statement inside a small script: parse_model must agree as well
+        text = 'W = X[-1]\n' + st + '\nV = W'
+        try:
+            scs = [pc.statement_case(x) for x in P.split_equations(text)]
+        except Exception:  # noqa: BLE001  (text level)
+            scs = None
+        if scs is not None and pc.payload_ok(scs):
+            real = pc.impl(pc.parse_model, text)
+            batch.append(('parse_model: parseModel(real terms) != real symbol list', {'text': text},
+                          pc.line('p_parse_model', {'stmts': [pc.stmt_payload(x) for x in scs]}),
+                          {'ok': pc.syms_json(real['ok'])} if 'ok' in real else real))
     for st in ["Y = X + if[0]", "if = X", "Y = X if Z else W", "not = X", "Y = lambda[1]"]:
         left, right = st.split('=', maxsplit=1)
         lt, rt = pc.impl(P.parse_terms, left), pc.impl(P.parse_terms, right)
@@ -391,15 +407,32 @@ def direct_correspondence(ctx, rep):
     flush(ctx, rep, batch)
 
 
-def function_clash_note(rep):
-    """Outside the grammar (a variable named like a function that the same statement calls): record what the code does."""
-    try:
-        syms = pc.parse_model('Y = log + log(X)')
-        kinds = {s.name: P.Type(s.type).name for s in syms}
-        rep.notes.append(f"outside the C01 grammar: 'Y = log + log(X)' is accepted with symbols {kinds} — the variable `log` is "
-                         "overwritten by the function symbol and appears in no class list (theorem classify_spec_false_at_witness)")
-    except Exception as e:  # noqa: BLE001
-        rep.notes.append(f"outside the C01 grammar: 'Y = log + log(X)' raises {pc.exc_name(e)}")
+def clash_cases(rng):
+    """Programs in which a variable shares its name with a function called in the same statement (both orders)."""
+    out = []
+    for f in gs.REPLACED + ['abs']:
+        for order in (0, 1):
+            var = gs.Term('var', f, rng.choice([None, -1, 2]))
+            call = gs.Call(f, (gs.Term('var', 'X', None), gs.Num('2')) if f in ('max', 'min') else (gs.Term('var', 'X', -1),))
+            rhs = gs.Bin('+', var, call) if order == 0 else gs.Bin('*', call, var)
+            prog = gs.Program([gs.Equation(gs.Term('var', 'Y', None), rhs),
+                               gs.Equation(gs.Term('var', 'Z', None), gs.Term('var', 'Y', -1))])
+            out.append({'prog': repr(prog), 'layout': 'plain', 'labels': list(range(2000, 2006)), 'tag': f'fclash{order}',
+                        'may_reject': True})
+    return out
+
+
+def no_variable_statements(rng):
+    """Statements whose left-hand side is not one plain variable (fix d65c5fa: ParserError) and function/variable
+    clashes in both orders (fix 3f601b8) — compared exactly, error class included."""
+    rhs = ['X', 'X + {b}', 'log(X) * Z[-1]', 'max(X, W[1]) + <u>', 'X if X > 0 else Z', '2']
+    lhs = ['1', '{a}', '<e>', '`a`', '{a}[1]', '<e>[-1]', 'f(X)', 'True', '0.5', '-Y', 'Y + Z', 'Y, Z']
+    out = [f'{l} = {r}' for l in lhs for r in rhs]
+    for f in ['log', 'exp', 'max', 'f', 'np.sqrt']:
+        v = f.split('.')[-1]
+        out += [f'Y = {v} + {f}(X)', f'Y = {f}(X) + {v}', f'Y = {v}[-1] * {f}(X) + {v}[2]', f'Y = {f}(X) + {f}(Z) - {v}',
+                f'{v} = {f}(X)', f'Y = {{{v}}} + {f}(X)', f'Y = {f}(X) / <{v}>', f'Y = {f}(X) + {f}(Z)']
+    return out
 
 
 def run(ctx, rep):
@@ -407,8 +440,10 @@ def run(ctx, rep):
     n_full = (24 if quick else 300) * ctx.scale
     n_latin = (700 if quick else 12000) * ctx.scale
     direct_correspondence(ctx, rep)
-    function_clash_note(rep)
     batch = []
+    for case in clash_cases(ctx.sub_rng('clash')):
+        case['seed'], case['index'] = ctx.seed, -1
+        run_program(ctx, rep, case, latin_options()[::4], batch)
     full, latin = full_options(), latin_options()
     for i in range(n_full + n_latin):
         rng = ctx.sub_rng('prog', i)
@@ -430,6 +465,8 @@ def replay(ctx, rep, case):
         return
     c = {k: case[k] for k in ('prog', 'layout', 'tag')}
     c['labels'] = case.get('labels') or [str(2000 + i) for i in range(6)]
+    import copy
+    ctx = copy.copy(ctx)   # the framework replays the corpus with the run's own ctx: do not switch T off for the run
     ctx.oracle_only = True
     opts = [case['opts']] if 'opts' in case else latin_options()
     run_program(ctx, rep, c, opts, [])
